@@ -953,7 +953,21 @@ func ruleWin5(c *Ctx, r *Reporter) {
 		r.bad("anchor:bsonkit.sortKey", "-", "not found")
 		return
 	}
-	reverse := fn.Params[1]
+	// the direction: a bool parameter, or the Reverse field of a Column the function receives
+	isReverse := func(v ssa.Value) bool {
+		switch x := v.(type) {
+		case *ssa.Parameter:
+			b, ok := x.Type().Underlying().(*types.Basic)
+			return ok && b.Kind() == types.Bool
+		case *ssa.Field:
+			return structFieldOf(x).Name() == "Reverse"
+		case *ssa.UnOp:
+			if fa, ok := x.X.(*ssa.FieldAddr); ok && x.Op == token.MUL {
+				return structFieldOf(fa).Name() == "Reverse"
+			}
+		}
+		return false
+	}
 	// the comparison inside a loop
 	var cmp *ssa.Call
 	allInstrs(fn, func(in ssa.Instruction) {
@@ -1048,7 +1062,7 @@ func ruleWin5(c *Ctx, r *Reporter) {
 		rev, revKnown := false, false
 		sign := 0
 		for _, d := range p {
-			if d.cond == ssa.Value(reverse) {
+			if isReverse(d.cond) {
 				rev, revKnown = d.taken, true
 			}
 			if s := signOf(d); s != 0 {
@@ -2958,16 +2972,13 @@ func ruleErr1(c *Ctx, r *Reporter) {
 				}
 				// the listed site may have moved into a private helper of the listed function
 				moved := false
-				for g, d := fn, 0; d < 3 && !moved; d++ {
-					site := helperSite(g)
-					if site == nil {
-						break
-					}
-					g = site.Parent()
+				plain := func(g *ssa.Function) string {
 					up := strings.TrimPrefix(strings.TrimPrefix(funcName(g), "(*"), "(")
-					up = strings.Replace(up, ")", "", 1)
-					if reason, ok := err1Allowed[closureNeutral(up)+" -> "+callee]; ok {
-						used[closureNeutral(up)+" -> "+callee] = true
+					return strings.Replace(up, ")", "", 1)
+				}
+				for _, up := range ownerNames(fn, plain)[1:] {
+					if reason, ok := err1Allowed[up+" -> "+callee]; ok && !moved {
+						used[up+" -> "+callee] = true
 						r.ok(key, c.pos(in.Pos()), "listed clean-up site (in a private helper of "+up+"): "+reason)
 						moved = true
 					}
